@@ -1206,6 +1206,200 @@ fn per(rng: &mut Rng, len: usize) -> Vec<u128> {
     (0..len).map(|_| rng.range(1, 1 << 40) as u128).collect()
 }
 
+/// `get_root_of_unity(log)` of a field as a canonical integer
+fn root_of(field: FieldId, log: u32) -> u128 {
+    match field {
+        FieldId::F62 => f62::BaseElement::get_root_of_unity(log).canon(),
+        FieldId::F64 => f64::BaseElement::get_root_of_unity(log).canon(),
+        FieldId::F128 => f128::BaseElement::get_root_of_unity(log).canon(),
+    }
+}
+
+const STRUCTURED_KINDS: usize = 9;
+
+/// one cycle of STRUCTURED values (`len` a power of two >= 2): vectors whose interpolant over the cycle
+/// subgroup is degenerate - zero leading coefficients, a constant, zero - or otherwise special.
+/// Wherever the code interpolates a polynomial from values and later looks at its length or degree,
+/// random values never produce these shapes.
+fn structured_cycle(rng: &mut Rng, field: FieldId, len: usize, kind: usize) -> Vec<u128> {
+    let p = field.modulus();
+    let v = rng.range(1, 1 << 40) as u128;
+    let w = rng.range(1, 1 << 40) as u128;
+    match kind % STRUCTURED_KINDS {
+        // constant, all zero
+        0 => vec![v; len],
+        1 => vec![0; len],
+        // period 2 inside the cycle (a cycle of length 2 stays as it is)
+        2 => (0..len).map(|i| if i % 2 == 0 { v } else { w }).collect(),
+        // period 4 inside the cycle
+        3 => {
+            let q: Vec<u128> = (0..4).map(|_| rng.range(1, 1 << 40) as u128).collect();
+            (0..len).map(|i| q[i % 4.min(len)]).collect()
+        },
+        // values of a polynomial of low degree d < len/2 on the cycle subgroup: the top coefficients
+        // of the interpolant vanish
+        4 | 5 => {
+            let d = if len <= 2 { 0 } else if kind % STRUCTURED_KINDS == 4 { 1 } else { rng.range(1, (len / 2 - 1).max(1) as u64) as usize };
+            let coef: Vec<u128> = (0..=d).map(|_| rng.range(1, 1 << 40) as u128).collect();
+            let h = root_of(field, len.trailing_zeros());
+            (0..len)
+                .map(|i| {
+                    let x = pm(h, i as u128, p);
+                    coef.iter().rev().fold(0u128, |acc, c| am(mm(acc, x, p), *c % p, p))
+                })
+                .collect()
+        },
+        // a single non-zero entry
+        6 => {
+            let k = rng.below(len as u64) as usize;
+            (0..len).map(|i| if i == k { v } else { 0 }).collect()
+        },
+        // alternating +v, -v
+        7 => (0..len).map(|i| if i % 2 == 0 { v } else { p - v }).collect(),
+        // degree exactly len - 2: only the leading coefficient vanishes (Σ v_j h^j = 0)
+        _ => {
+            if len <= 2 {
+                return vec![v; len];
+            }
+            let coef: Vec<u128> = (0..len - 1).map(|_| rng.range(1, 1 << 40) as u128).collect();
+            let h = root_of(field, len.trailing_zeros());
+            (0..len)
+                .map(|i| {
+                    let x = pm(h, i as u128, p);
+                    coef.iter().rev().fold(0u128, |acc, c| am(mm(acc, x, p), *c % p, p))
+                })
+                .collect()
+        },
+    }
+}
+
+/// several periodic columns of different cycle lengths, some of them structured
+fn structured_periodic(rng: &mut Rng, field: FieldId, cycles: &[usize], kinds: &[usize]) -> Vec<Vec<u128>> {
+    cycles.iter().zip(kinds.iter()).map(|(c, k)| if *k == usize::MAX { per(rng, *c) } else { structured_cycle(rng, field, *c, *k) }).collect()
+}
+
+/// a description whose asserted value sequences are degenerate: sequence assertions on a constant
+/// column, on columns repeating with period 2 / 4 and on columns of low polynomial degree, so that the
+/// value polynomials (SmallPoly below 63 coefficients, LargePoly from 64 values on) have zero leading
+/// coefficients or are constant
+fn degenerate_seq_desc(n: usize, stride: usize, first: usize, lowdeg: usize, periodic: Vec<Vec<u128>>) -> AirDesc {
+    let mut d = seq_desc(
+        n,
+        2,
+        periodic,
+        vec![
+            AssertDesc::single(0, 0),
+            AssertDesc::sequence(1, first, stride),
+            AssertDesc::sequence(2, first, stride),
+            AssertDesc::sequence(3, (first + 1) % stride, stride),
+            AssertDesc::sequence(4, first, stride),
+        ],
+        5,
+        1,
+    );
+    d.cols[1] = ColGen::Const(None);
+    d.cols[2] = ColGen::Cyc(2);
+    d.cols[3] = ColGen::Cyc(4);
+    d.cols[4] = ColGen::LowDeg(lowdeg);
+    d
+}
+
+/// STRUCTURED material: periodic columns, assertion sequences and traces whose interpolants have zero
+/// leading coefficients (or are constant / zero), for both the prover side and real proofs
+fn structured_ops(rng: &mut Rng, tier: Tier, emit: &mut dyn FnMut(String)) {
+    let thorough = tier == Tier::Thorough;
+    let ood_line = |field: FieldId, ext: u8, b: usize, seed: u64, d: &AirDesc| -> String {
+        format!("ood {} {} {} {}", field.name(), OptSpec::new(4, b, 0, ext, 4, 7).to_text(), seed, d.to_line())
+    };
+    // ---- periodic columns: every structured kind for every cycle length 2..16, alone and combined with
+    // columns of other cycle lengths (random and structured)
+    for field in FieldId::ALL {
+        for &n in &[16usize, 32] {
+            let mut combos: Vec<(Vec<usize>, Vec<usize>)> = vec![];
+            for kind in 0..STRUCTURED_KINDS {
+                for &c in &[2usize, 4, 8, 16] {
+                    if kind >= 2 && c == 2 && kind != 7 {
+                        continue;
+                    }
+                    combos.push((vec![c], vec![kind]));
+                }
+                // with a random column of another cycle length before and a structured one after
+                combos.push((vec![8, 4, 16], vec![usize::MAX, kind, (kind + 3) % STRUCTURED_KINDS]));
+                combos.push((vec![2, 16, 4, 8], vec![kind, usize::MAX, (kind + 5) % STRUCTURED_KINDS, kind]));
+            }
+            for (ci, (cycles, kinds)) in combos.iter().enumerate() {
+                if n == 32 && !thorough && ci % 3 != 0 {
+                    continue;
+                }
+                let periodic = structured_periodic(rng, field, cycles, kinds);
+                let mut d = seq_desc(n, 2, periodic, vec![AssertDesc::single(0, 0), AssertDesc::sequence(1, 1, 4)], 3, 1);
+                d.cols[1] = ColGen::Cyc(2);
+                let ext = *rng.pick(&exts(field));
+                let lb = *rng.pick(&blowups(&d, 512));
+                emit(def_line(field, ext, lb, &format!("s{}.3", rng.below(1000)), &d));
+                emit(ood_line(field, *rng.pick(&exts(field)), lb.max(4), rng.below(1000), &d));
+                if n == 16 && ci % 2 == 0 {
+                    if let Some(l) = explicit_line(field, if ci % 4 == 0 { 1 } else { ext }, 2, rng.below(1000), 2, &d) {
+                        emit(l);
+                    }
+                }
+                if ci % 5 == 0 {
+                    // periodic values in auxiliary constraints as well
+                    let d2 = with_aux(d.clone(), Some((1, 2)), ci % 10 == 0);
+                    emit(ood_line(field, *rng.pick(&exts(field)), 4, rng.below(1000), &d2));
+                    emit(def_line(field, ext, 4, &format!("s{}.2", rng.below(1000)), &d2));
+                }
+            }
+        }
+    }
+    // ---- degenerate assertion value sequences: 4..128 values (SmallPoly / LargePoly), constant,
+    // period 2, period 4, low degree; first step 0 and non-zero; main and auxiliary segment
+    let mut shapes = vec![(16usize, 4usize, 0usize), (64, 2, 1), (128, 2, 0), (128, 2, 1), (256, 4, 3), (256, 2, 1)];
+    if thorough {
+        shapes.push((512, 4, 2));
+        shapes.push((512, 2, 1));
+    }
+    for (si, (n, stride, first)) in shapes.into_iter().enumerate() {
+        for (fi, field) in FieldId::ALL.into_iter().enumerate() {
+            let lowdeg = *rng.pick(&[0usize, 1, 2, 3, 5]);
+            let periodic = if (si + fi) % 2 == 0 { vec![] } else { vec![structured_cycle(rng, field, 8, si + fi)] };
+            let d = degenerate_seq_desc(n, stride, first, lowdeg, periodic);
+            let ext = *rng.pick(&exts(field));
+            emit(def_line(field, ext, *rng.pick(&blowups(&d, 4096)), &format!("s{}.3", rng.below(1000)), &d));
+            // the auxiliary image of the low-degree column carries an auxiliary sequence assertion
+            let mut d2 = d.clone();
+            d2.assertions.pop();
+            let d2 = with_aux(d2, Some((first, stride)), false);
+            emit(def_line(field, ext, *rng.pick(&blowups(&d2, 4096)), &format!("s{}.3", rng.below(1000)), &d2));
+            if n <= 128 && (si + fi) % 2 == 0 {
+                emit(ood_line(field, *rng.pick(&exts(field)), 4, rng.below(1000), &d));
+                emit(ood_line(field, *rng.pick(&exts(field)), 4, rng.below(1000), &d2));
+            }
+            if (n == 16) || (n == 128 && fi == si % 3) {
+                if let Some(l) = explicit_line(field, 1, 2, rng.below(1000), 2, &d) {
+                    emit(l);
+                }
+            }
+        }
+    }
+    // ---- degenerate traces: every column constant / of low degree / periodic, with structured periodic columns
+    for field in FieldId::ALL {
+        for kind in [0usize, 2, 4, 8] {
+            let n = 16;
+            let mut d = seq_desc(n, 1, vec![structured_cycle(rng, field, 4, kind)], vec![AssertDesc::single(0, 0), AssertDesc::periodic(1, 1, 2)], 3, 1);
+            // column 0: x' = x + 5 + p0 (degree-1 rule); columns 1, 2: constant and low degree
+            d.cols[1] = ColGen::Const(Some(kind as u128));
+            d.cols[2] = ColGen::LowDeg(kind % 3);
+            d.constraints.push(Constraint { degree: Degree::new(1), expr: Expr::sub(Expr::Nxt(1), Expr::Cur(1)) });
+            emit(def_line(field, *rng.pick(&exts(field)), 4, &format!("s{}.3", rng.below(1000)), &d));
+            emit(ood_line(field, *rng.pick(&exts(field)), 4, rng.below(1000), &d));
+            if let Some(l) = explicit_line(field, 1, 2, rng.below(1000), 2, &d) {
+                emit(l);
+            }
+        }
+    }
+}
+
 fn def_line(field: FieldId, ext: u8, blowup: usize, data: &str, d: &AirDesc) -> String {
     format!("def {} {} {} {} {}", field.name(), ext, blowup, data, d.to_line())
 }
@@ -1446,6 +1640,7 @@ impl Prop for P {
     fn gen(&self, rng: &mut Rng, tier: Tier, n: usize, emit: &mut dyn FnMut(String)) {
         let n = default_n(tier, 2600, 26000, n);
         boundary_ops(rng, tier, emit);
+        structured_ops(rng, tier, emit);
         let mut big = big_explicit_ops(rng, tier);
         let every = (n / (big.len() + 1)).max(1);
         for i in 0..n {
@@ -1467,7 +1662,17 @@ impl Prop for P {
                 degenerate: i % 10 == 0,
                 sequences: true,
             };
-            let d = random_desc(rng, &bud);
+            let mut d = random_desc(rng, &bud);
+            // every other description with periodic columns gets STRUCTURED cycles (zero leading
+            // coefficients, sub-periods, constants): the trace is generated from them, so it stays valid
+            if !d.periodic.is_empty() && i % 2 == 0 {
+                for pc in d.periodic.iter_mut() {
+                    if rng.chance(2, 3) {
+                        let kind = rng.below(STRUCTURED_KINDS as u64) as usize;
+                        *pc = structured_cycle(rng, field, pc.len(), kind);
+                    }
+                }
+            }
             let ext = if small && i % 2 == 0 { 1 } else { *rng.pick(&exts(field)) };
             let lb = *rng.pick(&blowups(&d, if small { 256 } else { 2048 }));
             let seed = rng.below(1_000_000);
@@ -1479,7 +1684,7 @@ impl Prop for P {
                 if let Some(l) = explicit_line(field, ext, lb, seed, 2, &d) {
                     emit(l);
                 }
-            } else if i % 7 == 3 && d.trace_len <= 64 {
+            } else if (i % 7 == 3 || (!d.periodic.is_empty() && i % 4 == 0)) && d.trace_len <= 64 {
                 let o = OptSpec::new(3, lb, 0, ext, 4, 7);
                 emit(format!("ood {} {} {} {}", field.name(), o.to_text(), seed, d.to_line()));
             } else {
